@@ -179,7 +179,7 @@ theorem runByType_congr {t1 t2} (h : REqT t1 t2) : ∀ all1 all2, all1.map (·.1
 theorem unionByType_congr {t1 t2} (h : REqT t1 t2) : REq (.unionByType t1) (.unionByType t2) := by
   intro d; rw [run, run]
   cases d.jclass? with
-  | none => rfl
+  | none => simp only [map_fst_eq h]
   | some c => exact runByType_congr h t1 t2 (map_fst_eq h) c d
 
 theorem zip_reqT {ms1 ms2} (h : REqL ms1 ms2) : ∀ (cs : List JClass), REqT (cs.zip ms1) (cs.zip ms2) := by
